@@ -72,7 +72,7 @@ def scale(tier, quick, thorough):
     return thorough if tier == "thorough" else quick
 
 
-from gens import cubic, sock, pure, wire, mtu, txring, rx, segs, vsock, vsock_props  # noqa: E402,F401  (registers generators / oracles)
+from gens import cubic, sock, net, pure, wire, mtu, txring, rx, segs, vsock, vsock_props  # noqa: E402,F401  (registers generators / oracles)
 
 pure.register(sys.modules[__name__])
 cubic.register(sys.modules[__name__])
@@ -84,3 +84,4 @@ rx.register(sys.modules[__name__])
 segs.register(sys.modules[__name__])
 vsock.register(sys.modules[__name__])
 vsock_props.register(sys.modules[__name__])
+net.register(sys.modules[__name__])
